@@ -2110,10 +2110,10 @@ class t2data(object):
             if self.multi:
                 if 'eos' in self.multi:
                     if self.multi['eos']: aut2eosname = self.multi['eos'].strip()
-            elif self.simulator:
+            if not aut2eosname and self.simulator:
                 for eosname in supported_eos.keys():
                     if self.simulator.endswith(eosname):
-                        autseosname = eosname
+                        aut2eosname = eosname
         else:
             if isinstance(eos, int):
                 eos_from_index = {1: 'EW', 2: 'EWC', 3: 'EWA', 4: 'EWAV'}
